@@ -276,6 +276,21 @@ pub fn c05(fx: &mut Fx) {
 // C14: one-shot parser vs connection
 // ---------------------------------------------------------------------------------------
 pub fn c14(fx: &mut Fx) {
+    // large requests: a header line straddling the first window edge, a body of several windows
+    for _ in 0..(if fx.thorough { 300 } else { 40 }) {
+        let mut r = gram::valid(&mut fx.rng, &Opts { max_body: 0, ..Opts::default() });
+        r.method = b"PUT".to_vec();
+        let fill = fx.rng.gen_range(900..1100usize);
+        r.headers.insert(0, [b"X-Fill: ".to_vec(), vec![b'f'; fill]].concat());
+        let blen = fx.rng.gen_range(1..3000usize);
+        r.body = gram::rand_body(&mut fx.rng, blen);
+        r.headers.retain(|h| !h.to_ascii_lowercase().starts_with(b"content-length") && !String::from_utf8_lossy(h).to_lowercase().contains("content-length"));
+        r.headers.push(format!("Content-Length: {}", blen).into_bytes());
+        let b = r.bytes();
+        let kc = fx.rng.gen_range(0..4);
+        let cuts = gram::random_cuts(&mut fx.rng, b.len(), kc);
+        fx.push(json!({"e": "oneshot", "bytes": obs::bytes(&b), "max": -1, "limit": obs::digits(51200), "cuts": cuts}));
+    }
     let n = if fx.thorough { 4000 } else { 400 };
     let o = Opts { max_body: 30, ..Opts::default() };
     for i in 0..n {
@@ -299,7 +314,10 @@ pub fn c14(fx: &mut Fx) {
             let len = b.len() as i64;
             let max: i64 = *[-1i64, -1, -1, len, len + 1, len - 1, 2000, 0].choose(&mut fx.rng).unwrap();
             let limit: u128 = if fx.rng.gen_bool(0.1) { 10 } else { 51200 };
-            fx.push(json!({"e": "oneshot", "bytes": obs::bytes(&b), "max": max, "limit": obs::digits(limit)}));
+            // the connection receives the slice in segments (the one-shot parser sees it whole)
+            let kc = *[0usize, 0, 1, 2, 3].choose(&mut fx.rng).unwrap();
+            let cuts = gram::random_cuts(&mut fx.rng, b.len(), kc);
+            fx.push(json!({"e": "oneshot", "bytes": obs::bytes(&b), "max": max, "limit": obs::digits(limit), "cuts": cuts}));
         }
     }
 }
